@@ -9,7 +9,10 @@ RULE = ('class selection: every feasible path of the product (real ARM decoder ;
         'bit-provenance tracer with a model-count check that the paths partition 2^32; operands: per product path the '
         'witness, all-free-bits-0/1, each free bit alone and random members are decoded end-to-end by the emulator '
         '(decode + from_bitarray) and compared with the reference row\'s operand recipe; every 8th word is decoded twice '
-        'under different machine states and through a recording proxy; plus uniformly random words. non-trivial = a '
+        'under different machine states and through a recording proxy; plus uniformly random words, words generated from every '
+        'reference row (register pools, structured register lists, corner immediates), words one fixed bit away from a word of '
+        'another row, pairs of free bits per product path; a third of these after the same number has been decoded in the '
+        'OTHER instruction set on the same processor object (history independence). non-trivial = a '
         'defined instruction whose operands were compared; distinct = (row, product path, IT position)')
 ASSUMPTIONS = ['vf/ref/spec_arm.py transcribes the ARM encoding tables (A5) and per-instruction decode pseudocode (A8)',
                'decoders reach the instruction word only through substring/bit_at/chain/bit_count (else the path is opaque)',
@@ -21,6 +24,8 @@ def plan(tier, seed):
     n = 12 if q else 48
     specs = [dict(kind='product', set='arm', seed=seed, shard=i, of=n, per_path=24 if q else 2000) for i in range(n)]
     specs += [dict(kind='random', set='arm', seed=seed, shard=i, n=15000 if q else 400000) for i in range(4 if q else 16)]
+    nr = 8 if q else 32
+    specs += [dict(kind='rows', set='arm', seed=seed, shard=i, of=nr, per_row=120 if q else 8000) for i in range(nr)]
     return specs
 
 
